@@ -30,14 +30,16 @@ Theorem c14_maturity : forall g l dt m t,
 Proof. exact tick_matures_lemma. Qed.
 
 (* The measured window.  S = link time at the send, s = sender's clock with
-   S - tick <= s <= S, delay in [lo, hi], R = time of the maturing tick
-   (S + delay <= R < S + delay + tick), r = R - tick = receiver's clock at the
-   start of the step in which the message is handed over:
-   lo - tick <= r - s < hi + tick. *)
-Theorem c14_window : forall (S s delay lo hi R r tick : Z),
+   S - tick <= s <= S, delay in [lo, hi]; the message is handed over at the
+   destination's first turn after it matured, i.e. at a step start r with
+   S + delay - tick <= r <= S + delay (matured by the tick R with
+   S + delay <= R < S + delay + tick: r = R - tick; zero delay, matured inside
+   the send: r = S - tick if the destination still has its turn in this step,
+   else r = S).  Then lo - tick <= r - s <= hi + tick. *)
+Theorem c14_window : forall (S s delay lo hi r tick : Z),
   (0 < tick -> S - tick <= s <= S -> lo <= delay <= hi ->
-   S + delay <= R < S + delay + tick -> r = R - tick ->
-   lo - tick <= r - s < hi + tick)%Z.
+   S + delay - tick <= r <= S + delay ->
+   lo - tick <= r - s <= hi + tick)%Z.
 Proof. intros. lia. Qed.
 
 (* A per-link latency takes precedence from the moment it is made, whatever
